@@ -15,8 +15,24 @@ _ASSUME = ['process death only: a write(2) that returned is on disk; power loss 
            'kill points are the instrumentation sites (between statements), not inside a system call',
            'correspondence Kevo.Model.Crash ~ implementation is sampled (differential), not proved']
 
-reg(Prop('C02', 'Kevo.Props.C02', facts=['facts:wal.*', 'facts:storage.*'], components=[CRASH], fact_tags=['wal', 'storage'],
-         rule=_RULE, assumptions=_ASSUME))
+from oracledefs import power
+POWER = Comp('power', n_quick=32, n_thorough=600, oracle=power.power_oracle, nontrivial=power.power_nontrivial, stats=power.power_stats,
+             chunk_min=2, timeout=1800, header_lines=1)
+_POWER_RULE = (' Plus component power (power loss, reconstructed): each workload runs once in a child under strace (openat/write/fsync/'
+               'fdatasync/rename/unlink/ftruncate per file, one marker write per acknowledgement); for EVERY acknowledgement the directory '
+               'is rebuilt with every file cut to the bytes that had been fsync\'ed by then (the minimal survivor of a power failure), '
+               'reopened with the real engine and compared with Kevo.Model.Crash.recoveredPower/syncedAt (synced length of every log '
+               'file and recovered state, exactly); oracle: the image opens, holds a prefix of whole writes, with synchronous logging '
+               'every acknowledged write, in every mode everything before a clean close or explicit flush; no file is renamed into place '
+               'with unsynced data (found D42: MANIFEST renamed unsynced, repaired).')
+_POWER_ASSUME = ['power loss: directory operations (create/rename/unlink) are taken as durable and ordered (kevo never syncs a directory); '
+                 'file data is durable exactly when fsync\'ed; the adversary is the minimal survivor (synced bytes only) - intermediate '
+                 'survivors between synced and written length are covered by the theorem and by C10 truncation, not replayed here',
+                 'strace renders the system calls faithfully; if strace cannot attach in the sandbox the component is skipped and the evidence says so']
+_C02_COMPS = [CRASH] + ([POWER] if power.strace_usable() else [])
+
+reg(Prop('C02', 'Kevo.Props.C02', facts=['facts:wal.*', 'facts:storage.*'], components=_C02_COMPS, fact_tags=['wal', 'storage'],
+         rule=_RULE + (_POWER_RULE if len(_C02_COMPS) > 1 else ' (component power SKIPPED: strace unusable here)'), assumptions=_ASSUME + _POWER_ASSUME))
 from oracledefs import walfault, txvis, engine as _eng
 ENGINE_C03 = Comp('engine', n_quick=120, n_thorough=2000, oracle=_eng.engine_oracle, nontrivial=_eng.engine_nontrivial, stats=_eng.engine_stats,
                   chunk_min=10, timeout=900)
